@@ -112,7 +112,27 @@ def ocaml_eval_bytecode(ck, name, cases_ml, timeout=1500):
     return rc, out
 
 
-def eval_sem(ck, name, cases, recases=None):
+def eval_sem(ck, name, cases, recases=None, jobs=4):
+    """eval_sem_one over `jobs` interleaved parts of the cases, each compiled and run in a directory and a process of its
+    own at the same time (compiling the generated terms and running them is the longest step of the check and has no
+    shared state); the expressions of the regexp grammar tie go with the first part"""
+    if len(cases) < 40 or jobs < 2:
+        return eval_sem_one(ck, name, cases, recases)
+    from concurrent.futures import ThreadPoolExecutor
+    parts = [cases[j::jobs] for j in range(jobs)]
+    with ThreadPoolExecutor(max_workers=jobs) as ex:
+        futs = [ex.submit(eval_sem_one, ck, "%s_%d" % (name, j), parts[j], recases if j == 0 else None) for j in range(jobs)]
+        outs = [f.result() for f in futs]
+    res, log = {}, ""
+    for r, out in outs:
+        if r is None:
+            return None, out
+        res.update(r)
+        log += out
+    return res, log
+
+
+def eval_sem_one(ck, name, cases, recases=None):
     """{id: {"c": [fragment,width,ctx_ok,text_ok,model_sel], "dbs": [{...}]}} via the extracted check_case"""
     chunks = [recases_ml(recases or [])]
     for k in range(0, len(cases), 25):
@@ -140,6 +160,58 @@ def eval_sem(ck, name, cases, recases=None):
         elif p[0] == "R" and recases is not None:
             recases[int(p[1])]["model_same"] = p[2] == "1"
     return res, out
+
+
+DAY_NS = 86400 * 10**9
+
+
+def zone_days(ctx):
+    """(UTC day, day in the case's process zone) of the instant 30 minutes before the window start: the first is the day
+    bound the statement must carry (the writer dates index rows by the UTC day), the second what a bound formatted in the
+    zone of the process would print"""
+    import datetime
+    import zoneinfo
+    x = ctx["from_ns"] - 1800 * 10**9
+    utc = x // DAY_NS
+    tz = ctx.get("tz")
+    if not tz:
+        return utc, utc
+    t = datetime.datetime.fromtimestamp(x // 10**9, zoneinfo.ZoneInfo(tz))
+    return utc, (t.date() - datetime.date(1970, 1, 1)).days
+
+
+def zone_coverage(ck, res, byid):
+    """how far the search reaches the process zone: evaluated cases per zone, those whose zone is on another calendar day
+    than UTC at (start - 30 min), and the databases among them in which a line of the reference answer belongs to a stream
+    whose index rows all carry days before the zone's day (the stream a day bound printed in that zone loses)"""
+    per_zone, differ_east, differ_west, exposing = {}, 0, 0, 0
+    for cid, v in res.items():
+        c = byid[cid]
+        tz = c["ctx"].get("tz")
+        if not tz or not v["ctx_ok"]:
+            continue
+        per_zone[tz] = per_zone.get(tz, 0) + 1
+        utc, loc = zone_days(c["ctx"])
+        if loc < utc:
+            differ_west += 1
+        if loc <= utc:
+            continue
+        differ_east += 1
+        for k, d in enumerate(v["dbs"]):
+            db = c["dbs"][k]
+            last = {}
+            for s in db["series"]:
+                last[s["fp"]] = max(last.get(s["fp"], -1), s["day"])
+            lo, hi = c["ctx"]["from_ns"], c["ctx"]["to_ns"]
+            if d["nwant"] > 0 and any(lo <= x["ts"] < hi and last.get(x["fp"], loc) < loc for x in db["samples"]):
+                exposing += 1
+    ck.obligation("process zones: the search plans cases under zones east and west of UTC with windows on which the zone's calendar day is not the UTC day, "
+                  "and evaluates databases holding a stream indexed only before the zone's day (%d cases under %d zones; zone day after / before the UTC day: %d / %d; "
+                  "such databases with a non-empty reference answer: %d)" % (sum(per_zone.values()), len(per_zone), differ_east, differ_west, exposing),
+                  ck.replay or (differ_east >= 8 and differ_west >= 3 and exposing >= 8), "")
+    ck.extra.setdefault("input_distribution", {})["process_zones (semantic search)"] = {
+        "cases_per_zone": per_zone, "zone_day_after_utc_day": differ_east, "zone_day_before_utc_day": differ_west,
+        "databases_with_a_wanted_line_of_a_stream_indexed_only_before_the_zone_day": exposing}
 
 
 def pipeline(ck, tag, cases, ndb):
@@ -211,7 +283,7 @@ def run_semantic(ck, text_cases, recases=None):
     # queries of the general generator (sqltext) and, first of all, those whose SQL text left the model
     mism_ids = set()
     extra = []
-    for c in getattr(ck, "sql_mismatch_cases", []) or []:
+    for c in (getattr(ck, "sql_mismatch_cases", []) or [])[:120]:     # (a change that moves every statement: the first 120 are enough)
         extra.append(c)
         mism_ids.add(2000000 + len(extra) - 1)
     for c in text_cases or []:
@@ -290,18 +362,22 @@ def run_semantic(ck, text_cases, recases=None):
             if not bad:
                 continue
             rep = {"property": "C07", "kind": "the SQL of the implementation does not return the reference answer",
-                   "query": c["query"], "ctx": c["ctx"], "db": db, "expected": d.get("want"), "got": d.get("got"),
+                   "query": c["query"], "ctx": c["ctx"], "process_zone": "TZ=%s" % (c["ctx"].get("tz") or "UTC"),
+                   "db": db, "expected": d.get("want"), "got": d.get("got"),
                    "expected_is": ("every matching line (model/LogqlSem.v log_rows3; behind a line_format the line is the executed template); with ctx.limit = L > 0 the answer must be some top-L subset of it in the query direction"
                                    if c["ctx"].get("finalize", True) else
                                    "Plan(script, false), the statement that feeds the in-process engine: EVERY matching line whatever ctx.limit says, in timestamp order of the query direction"),
                    "sql": c["sql"][0], "guards": {"width<=63": v["width"], "absent_guard": d["absent"], "oracle_ok": d["oracle"]},
                    "same_as_model": d["same"], "origin": origin.get(cid),
-                   "replay": "harness logqlsql --cases <query,ctx> gives the SQL; evaluate it over db (model/SqlEval.v) or on a ClickHouse with these rows"}
+                   "replay": "harness logqlsql --cases <query,ctx> gives the SQL (ctx.tz = the zone of the reader process: the harness sets time.Local to it, "
+                             "as starting the reader with TZ=<zone> does); evaluate it over db (model/SqlEval.v) or on a ClickHouse with these rows; "
+                             "bin/check C07 --replay <this file> does both"}
             if guards or not d["same"]:
                 violations.append(rep)
             else:
                 fid = FINDING_WIDTH if not v["width"] else FINDING_ABSENT if not d["absent"] else FINDING_ORACLE if not d["oracle"] else (dev or "unrecorded-deviation")
                 findings_hit.setdefault(fid, []).append(rep)
+    zone_coverage(ck, res, byid)
     unbound = [byid[i]["query"] for i, v in res.items() if not v["wrefs"]]
     ck.obligation("every WithRef of the model's SELECT carries the query that the WITH list binds to its alias (%d plans)" % len(res),
                   not unbound, "; ".join(unbound[:3]))
@@ -476,7 +552,8 @@ def run(ck):
     ck.coq_props()
     if not ck.quick():
         ck.coqchk(["Qryn.props.C07"])
-    cases = sqltext.run_logql(ck, n_quick=1000, n_thorough=40000)
+    zargs = dict(zones=sqltext.ZONES, zone_share=3, env_zone="Asia/Tokyo", env_n=ck.n(400, 4000))
+    cases = sqltext.run_logql(ck, n_quick=1000, n_thorough=40000, **zargs)
     # the OCaml scratch directory of sqltext ("logql") is shared by every check that calls run_logql; when two checks
     # run at the same time their builds can clobber each other ("inconsistent assumptions over interface Cases").
     # That is not a property of the repository: retry once.
@@ -484,7 +561,7 @@ def run(ck):
         ck.log("sqltext OCaml build was disturbed by a concurrent run; retrying once")
         ck.obligations.pop()
         time.sleep(5)
-        cases = sqltext.run_logql(ck, n_quick=1000, n_thorough=40000)
+        cases = sqltext.run_logql(ck, n_quick=1000, n_thorough=40000, **zargs)
     rows = gen_regroups(ck)
     run_semantic(ck, cases, rows)
     run_regroups(ck, rows)
